@@ -255,7 +255,7 @@ func (r *Run) c13AcrossReconnect() {
 func runC13(r *Run) {
 	installHooks()
 	g := r.rng
-	r.st.Rule = "scripted peer over TCP and WebSocket: handlers registered before dialing (several per command, one also on the control command numbers), then either frames one by one, or a first push whose handler blocks while a burst of N frames (pushes of 4 commands, unsolicited responses, heartbeat responses, push-typed control commands, peer requests) arrives in one write, for queue sizes 1..16 so that the burst overflows; the handler-invocation sequence, the logged drops and the dispatched count are compared with Model/Dispatch.v replaying reader/dispatcher steps; direct oracle: own-command handlers only, control never delivered, exactly-once in order when nothing was dropped; plus delivery across a drop+recovery. distinct = distinct request lines"
+	r.st.Rule = "scripted peer over TCP and WebSocket: handlers registered before dialing (several per command, one also on the control command numbers), then either frames one by one, or a first push whose handler blocks while a burst of N frames (pushes of 4 commands, unsolicited responses, heartbeat responses, push-typed control commands, peer requests) arrives in one write, for queue sizes 1..16 so that the burst overflows; the handler-invocation sequence, the logged drops and the dispatched count are compared with Model/Dispatch.v replaying reader/dispatcher steps; direct oracle: own-command handlers only, control never delivered, exactly-once in order when nothing was dropped; plus delivery across a drop+recovery. Also: delivered packets are kept and re-rendered later (no aliasing of receive buffers); pushes in WebSocket text messages; two clients receiving 1500 numbered pushes each at the same time; a handler that calls back into the client while the loss of the connection is processed; three pushes and a drop while Dial is parked before it registers the packet callback (dial.before-onpacket gate): the pushes are still delivered (TCP and WS). distinct = distinct request lines"
 	n := 10
 	if r.thorough() {
 		n = 150
